@@ -5,9 +5,10 @@ pub mod runner;
 
 pub mod typed;
 pub mod c01;
+pub mod c02;
 pub mod c03;
 pub mod c13;
 
 pub fn registry() -> Vec<runner::Property> {
-    vec![c01::property(), c03::property(), c13::property()]
+    vec![c01::property(), c02::property(), c03::property(), c13::property()]
 }
